@@ -17,5 +17,5 @@ run() { # patch props label
   done
 }
 for f in mutants/*.diff; do run $f $(basename $f | cut -d- -f2) $(basename $f .diff); done
-for d in seeded/*/; do id=$(basename $d); also=$(python3 -c "import json,sys; print(\",\".join(json.load(open(sys.argv[1])).get(\"also\",[])))" $d/meta.json 2>/dev/null); run $d/patch.diff ${id%-*}${also:+,$also} $id; done
+for d in seeded/*/; do id=$(basename $d); grep -q '"superseded"' $d/meta.json && continue; also=$(python3 -c "import json,sys; print(\",\".join(json.load(open(sys.argv[1])).get(\"also\",[])))" $d/meta.json 2>/dev/null); run $d/patch.diff ${id%-*}${also:+,$also} $id; done
 echo "selftest: $pass detected, $fail missed"
